@@ -77,8 +77,9 @@ def run(ck):
     ck.rule("R4", "the forward placement loop advances by each block's size", floor=1)
     _rework_rules(ck)
 
+    from sa.prenorm import normalise_function
     for q, include_pinned in (("BlockChain.place", True), ("BlockChain.fix_blocks", False)):
-        fn = m.func(q)
+        fn = normalise_function(m.func(q))
         loops = [n for n in walk_body(fn) if isinstance(n, ast.For) and "self.blocks" in norm(n.iter) and IDX in norm(n.iter)]
         if len(loops) != 2:
             raise AnalysisError("%s: expected two loops over slices around the pinned index, found %d" % (q, len(loops)))
@@ -91,6 +92,9 @@ def run(ck):
                     raise AnalysisError("%s: loop iterable not understood: %s / %s" % (q, norm(loops[0].iter), norm(loops[1].iter)))
                 before = list(range(i - 1, -1, -1))
                 after = list(range(i if include_pinned else i + 1, n))
+                # BlockChain.place only sums sizes over each side: the visiting order is irrelevant there
+                if include_pinned:
+                    a, before = sorted(a), sorted(before)
                 if a != before or b != after:
                     if bad is None:
                         bad = (n, i, a, b, before, after)
